@@ -339,7 +339,7 @@ Definition check (tab : list (string * list (Z * xs))) (c : vcase) : bool :=
       && (iy' =? iy) && (iw' =? iw) && (days_of_civil y m d =? days)
   | VFi n layout e =>
       (* the FormatNumber facts assumed by the inverse-law theorem (hypotheses fi_year, fi_2,
-         fi_2neg of Proofs/LibDateProofs.v) hold of the real FormatNumber *)
+         fi_2neg, fi_4 of Proofs/LibDateProofs.v) hold of the real FormatNumber *)
       agree_s (Proofs.LibDateProofs.fi_example n (unhex layout)) e
   end.
 `
@@ -972,6 +972,9 @@ func main() {
 	}
 	for n := -99; n <= 99; n++ {
 		emitFi(n, "01")
+	}
+	for n := 0; n <= 9999; n++ {
+		emitFi(n, "0001")
 	}
 	flush()
 
